@@ -144,18 +144,24 @@ Definition judge_resolvable (c : symtab * list str * list stmt) : nat :=
    chains; every chain added must be a reference of the statement; none twice. ---- *)
 Definition chain_in (ch : chain) (l : list chain) : bool := existsb (list_eqb str_eqb ch) l.
 
-Definition judge_add_stmt (c : list chain * stmt * str * option (list chain)) : nat :=
+Definition judge_add_stmt (c : list chain * stmt * str * option (list chain * list chain)) : nat :=
   let '(calls, st, line, impl) := c in
-  let model_bad := negb (opt_eqb chains_eqb (Some (add_calls [] calls line)) impl) in
+  let model_bad := negb (opt_eqb pair_chains_eqb (Some (add_calls [] calls line, add_named [] [] line)) impl) in
   let applicable := seg_stmt st && wf_stmt st && plain_ok st && str_eqb line (render_stmt st) in
   let spec_bad :=
     applicable &&
     match impl with
     | None => true
-    | Some l =>
-      let want := filter (fun ch => negb (str_in (last_of ch) INTRINSICS) && negb (chain_in ch (stmt_inner st))) (stmt_refs st) in
+    | Some (l, n) =>
+      let outer := filter (fun ch => negb (chain_in ch (stmt_inner st))) (stmt_refs st) in
+      let want := filter (fun ch => negb (str_in (last_of ch) INTRINSICS)) outer in
+      (* a reference that ends in an INTRINSICS spelling may be to a procedure of the project: it must be
+         among the candidates, wherever it stands in the statement *)
+      let want_named := filter (fun ch => str_in (last_of ch) INTRINSICS) outer in
       negb (forallb (fun ch => chain_in ch l) want
+            && forallb (fun ch => chain_in ch n) want_named
             && forallb (fun ch => chain_in ch calls || chain_in ch (stmt_refs st)) l
-            && (negb (nodup_b (list_eqb str_eqb) calls) || nodup_b (list_eqb str_eqb) l))
+            && (negb (nodup_b (list_eqb str_eqb) calls) || nodup_b (list_eqb str_eqb) l)
+            && nodup_b (list_eqb str_eqb) n)
     end in
   verdict model_bad spec_bad 0.
